@@ -268,6 +268,11 @@ func (f *FnEnc) applyContract(ct *Contract, name string, env map[string]string, 
 		envPost["err"] = res[n-1].T
 	}
 	for _, en := range ct.Ensures {
+		if hasTag(en.Tags, "only") && !f.wantTags(en.Tags) {
+			// a clause marked "only" is a fact for the listed properties alone: other runs neither
+			// prove nor use it (keeps their queries free of quantified facts they do not need)
+			continue
+		}
 		{
 			chk := map[string]string{"H": "", "H0": ""}
 			for k, v := range envPost {
